@@ -157,7 +157,7 @@ def cmd_unit(args):
         return 2
     if getattr(args, "json", False):
         print("HQJSON " + json.dumps({"unit": R.name, "status": R.status, "reason": R.reason[:600], "canary_failed": R.canary_failed,
-                                      "verified_fns": len(R.verified_fns), "wall": round(R.wall, 1),
+                                      "verified_fns": len(R.verified_fns), "wall": round(R.wall, 1), "fns": sorted(R.fn_info.keys()),
                                       "failures": [{"fn": f["fn"], "msg": f["msg"], "clause": (f.get("clause") or "")[:200],
                                                     "failed_requires": (f.get("failed_requires") or "")[:200]} for f in R.failures],
                                       "undecided": [{"fn": f.get("fn"), "msg": f["msg"][:200]} for f in R.undecided]}))
